@@ -28,8 +28,10 @@ def after_call(con, args, tag="C"):
         st.assume(z3.Not(w))
     eng = Engine(None, {}, {})
     h1 = eng.havoc(st, con.modifies(c0), h0)
-    for _, p in con.ensures(Ctx(None, h0, h1, args)):
-        st.assume(p)
+    if con.ret is None or con.ret.kind == "none":
+        for _, p in con.ensures(Ctx(None, h0, h1, args)):
+            st.assume(p)
+    # (contracts with a result: the caller instantiates `ensures` with its own result symbol)
     return h0, h1, list(st.pc)
 
 
